@@ -35,7 +35,10 @@ class Ctx:
 
     # ---- declaring
     def rule(self, rid, text):
-        self.rules[rid] = text
+        if rid in self.rules and text not in self.rules[rid]:
+            self.rules[rid] += "  ++  " + text
+        elif rid not in self.rules:
+            self.rules[rid] = text
 
     def assume(self, text):
         if text not in self.assumptions:
